@@ -48,7 +48,8 @@ PROBES = ["reentrant_close_during_render", "render_fault_in_first_animation_fram
           "double_close", "double_finalize", "interrupted_draw_write", "iterator_exhausted",
           "setting_changed_mid_iteration", "keyboardinterrupt_in_render", "finalizer_raised",
           "iterator_construction_rejected", "render_class_inheriting_its_data_namespace",
-          "history_inside_an_exception_handler", "render_class_with_chaining_finalizer"]
+          "history_inside_an_exception_handler", "render_class_with_chaining_finalizer",
+          "draw_with_incompatible_render_args"]
 COMPONENTS = {
     "real": ["RenderData.finalize/__del__", "Renderable._init_render_/draw/render/__str__/"
              "__iter__/_animate_", "RenderIterator (__init__, _from_render_data_, __next__, "
@@ -110,6 +111,18 @@ def _run(ch, ctx, fault=None):
 
         class Derived(SimR):
             """inherits data namespace and finalizer; declares none of its own"""
+
+        class Unrelated(R.Renderable):
+            """a render class of its own: its render arguments fit none of the others"""
+
+            def _get_render_size_(self):
+                return ti.geometry.Size(1, 1)
+
+            def _render_(self, render_data, render_args):
+                raise NotImplementedError
+
+        class UnrelatedArgs(R.ArgsNamespace, render_cls=Unrelated):
+            x: int = 0
 
         class Styled(SimR):
             """a render class on top of another one, with a finalizer of its own that chains
@@ -228,8 +241,13 @@ def _run(ch, ctx, fault=None):
                         vt.resize(1, 1)
                     pad = padding_mod.AlignedPadding(ch.int("pw", 1, 4), ch.int("ph", 1, 2))
                     desc = "%r.draw(animate=%s) on %dx%d terminal" % (r, animate, vt.cols, vt.rows)
+                    dargs = None
+                    if ch.bool("unrelated_args", 0.1):
+                        dargs = +UnrelatedArgs(1)
+                        desc += " with render arguments of an unrelated class"
+                        ctx.probe("draw_with_incompatible_render_args")
                     try:
-                        r.draw(None, pad, animate=animate, loops=ch.int("loops", 1, 2),
+                        r.draw(dargs, pad, animate=animate, loops=ch.int("loops", 1, 2),
                                cache=ch.bool("cache", 0.5))
                     finally:
                         if too_big:
@@ -243,7 +261,9 @@ def _run(ch, ctx, fault=None):
                         bad = ch.pick("bad_ctor", (
                             ("loops=0", lambda: RenderIterator(r, loops=0)),
                             ("cache=0", lambda: RenderIterator(r, cache=0)),
-                            ("cache=-3", lambda: RenderIterator(r, cache=-3))))
+                            ("cache=-3", lambda: RenderIterator(r, cache=-3)),
+                            ("render arguments of an unrelated class",
+                             lambda: RenderIterator(r, +UnrelatedArgs(1)))))
                     desc = "RenderIterator(%r) rejected: %s" % (r, bad[0])
                     ctx.probe("iterator_construction_rejected")
                     op = "iter_rejected"
@@ -463,9 +483,10 @@ def _run(ch, ctx, fault=None):
                         reenter = None       # the closure keeps the iterator alive
                     desc += " -> %s" % (outcome or ["render not reached (cached)"])[0]
                     ctx.probe("reentrant_close_during_render")
-                    if not lv.closed:
-                        # still open: it must still iterate or be closable exactly once later
-                        pass
+                    if outcome == ["closed"]:
+                        # close() returned normally: then the iterator IS closed from here on
+                        # (whatever the call that was in progress went on to return)
+                        lv.closed = True
                 elif op == "seek":
                     if not live:
                         continue
@@ -560,8 +581,9 @@ def _run(ch, ctx, fault=None):
             if exc is not None:
                 owns_after_init = op == "draw" and fault_here and not finalizer_failed and \
                     type(exc).__name__ != "RenderSizeOutofRangeError"
+                rejected_args = type(exc).__name__ == "IncompatibleRenderArgsError"
                 if op in ("str", "render", "init_render_final", "iter_rejected") \
-                        or owns_after_init:
+                        or owns_after_init or rejected_args:
                     # these operations own the data (finalize=True): it must be final when they
                     # fail, not whenever the traceback happens to be collected (exc is still
                     # alive here and keeps the frames - and the data - referenced)
@@ -569,7 +591,10 @@ def _run(ch, ctx, fault=None):
                         must_be_final(tok, "operation failed with %s" % type(exc).__name__, op)
                 expected_validation = op in ("draw", "init_render_final") and \
                     type(exc).__name__ == "RenderSizeOutofRangeError"
-                if op == "iter_rejected" and isinstance(exc, ValueError) and not fault_here:
+                if op == "iter_rejected" and (isinstance(exc, ValueError) or rejected_args) \
+                        and not fault_here:
+                    ctx.nontrivial = True
+                elif op == "draw" and rejected_args and not fault_here:
                     ctx.nontrivial = True
                 elif op == "init_render_final" and type(exc) is StopIteration and not fault_here:
                     ctx.nontrivial = True      # an exhausted INDEFINITE source says so
